@@ -23,6 +23,9 @@ def run(ctx):
     # among the ill-conditioned ones that are skipped) while u^T L^-1 u still enters
     ss += S.generate(ctx, 2 if ctx.quick else 6, 4, max_e=8, max_loops=7, routings_per_graph=1, names=["banana8"], kinds=("uniform",),
                      mass_mode="all", ext_modes=["all"])
+    # kinematics (momenta and masses) of order 1e+-110: V ~ 1e+-220 is still an ordinary f64, and F is homogeneous of degree two in them
+    ss += S.generate(ctx, 6 if ctx.quick else 24, 2, max_e=5, max_loops=2, routings_per_graph=1, kinds=("uniform",), mass_mode="some",
+                     scales=(Fraction(10) ** 110, Fraction(1, 10 ** 110), Fraction(10) ** 101))
     # signed permutations of the fundamental loops of 4- and 5-loop bananas: all off-diagonal entries of L are +-x_tree, and with one
     # (or three) reversed loops their SIGNED sum vanishes although none of them does
     ss += S.generate(ctx, 3 if ctx.quick else 12, 1, max_e=6, max_loops=5, routings_per_graph=6, names=["banana5", "banana5", "banana6"],
